@@ -193,6 +193,25 @@ let writers_case (mode : string) (d : string) (mstart : string) (mlen : string) 
     "ok:" ^ S.concat "|" (L.map wfiles per)
   with Wclass c -> c
 
+(* ---- decoded output of Resegment / Fragmentify (V / Y lines) ---- *)
+let parse_data_sample (x : string) : fsample =
+  match split_on ':' x with
+  | [dts; dur; cto; flags; data] ->
+    { fs_dts = n_of_bigdec dts; fs_dur = n_of_dec dur; fs_cto = z_of_dec cto; fs_flags = n_of_dec flags;
+      fs_data = bytes_of_hex data }
+  | _ -> failwith ("bad data sample " ^ x)
+let parse_data_samples (s : string) : fsample list = if s = "-" then [] else L.map parse_data_sample (split_on '/' s)
+
+let pieces_string (tid : coq_N) (r : fsample list list res) : string =
+  try
+    let pieces = wget r in
+    let trex = { C05Model.tx_track = tid; tx_ddur = N0; tx_dsize = N0; tx_dflags = N0 } in
+    let outs = L.map (fun seg ->
+        let fe = wget (C11FetchModel.write_segment false tid (L.map C11Spec.to_full seg)) in
+        wget (C11FetchModel.read_back trex (n_of_int 24) [] fe)) pieces in
+    wfiles outs
+  with Wclass c -> c
+
 let opt_n (s : string) : coq_N option = if s = "x" then None else Some (n_of_dec s)
 
 let () =
@@ -282,6 +301,15 @@ let () =
         let m = writers_case mode d mstart mlen file tracks in
         if m = obs then Printf.printf "OK %s\n" id
         else Printf.printf "MISMATCH %s segmenter-writers(%s) model=%s\n" id mode (if S.length m > 600 then S.sub m 0 600 else m)
+      | ["V"; id; d; tid; samples; obs] ->
+        let m = pieces_string (n_of_dec tid) (resegment (n_of_bigdec d) (parse_data_samples samples)) in
+        if m = obs then Printf.printf "OK %s\n" id
+        else Printf.printf "MISMATCH %s resegment-decoded model=%s\n" id (if S.length m > 600 then S.sub m 0 600 else m)
+      | ["Y"; id; d; tid; frags; obs] ->
+        let fr = if frags = "" then [] else L.map parse_data_samples (split_on '|' frags) in
+        let m = pieces_string (n_of_dec tid) (fragmentify (n_of_dec d) fr) in
+        if m = obs then Printf.printf "OK %s\n" id
+        else Printf.printf "MISMATCH %s fragmentify-decoded model=%s\n" id (if S.length m > 600 then S.sub m 0 600 else m)
       | "G" :: id :: _ ->
         let f = Array.of_list (split_on '\t' line) in
         if Array.length f <> 19 then Printf.printf "BADLINE %s\n" line
